@@ -30,24 +30,31 @@ def EvOk (T : Nat → Nat) (s : Node) : Ev → Prop
   | .poll (some (pact, _)) => pact = T (s.cur + 1)
   | _ => True
 
-/-- Prompt teardown: the instance of epoch `e` makes nothing durable once the last block of `e`
-(`T (e+1) - 1`) is persisted. -/
-def Prompt (T : Nat → Nat) (s : Node) : Ev → Prop
-  | .timeout e => s.persistedNext < T (e + 1)
-  | .vote e _ _ _ => s.persistedNext < T (e + 1)
-  | .newView e _ => s.persistedNext < T (e + 1)
+/-- the view-0 bootstrap state of an instance (`run` makes it durable before anything else) -/
+def Boot (st : RState) : Prop := st.view = 0 ∧ st.phase = .timeout
+
+/-- What is still assumed of an instance that has been overtaken (an instance of a later epoch made a durable write
+during its life — its own epoch is over, its teardown is on the way): a durable write of its in-flight handler lands
+only while every later epoch's last backup is still the view-0 bootstrap state. -/
+def BenignAt (s : Node) (e : Nat) : Prop :=
+  s.overtaken e = true → ∀ x st, e < x → s.lastBackup x = some st → Boot st
+
+def Benign (s : Node) : Ev → Prop
+  | .timeout e => BenignAt s e
+  | .vote e _ _ _ => BenignAt s e
+  | .newView e _ => BenignAt s e
   | _ => True
 
-/-- executable versions of `EvOk` / `Prompt` (for the checked example runs) -/
+/-- executable versions (for the checked example runs); `freshB`: the writer has not been overtaken — implies `Benign` -/
 def evOkB (T : Nat → Nat) (s : Node) : Ev → Bool
   | .runnerInit last act _ => decide (act = T (curOf last))
   | .poll (some (pact, _)) => decide (pact = T (s.cur + 1))
   | _ => true
 
-def promptB (T : Nat → Nat) (s : Node) : Ev → Bool
-  | .timeout e => decide (s.persistedNext < T (e + 1))
-  | .vote e _ _ _ => decide (s.persistedNext < T (e + 1))
-  | .newView e _ => decide (s.persistedNext < T (e + 1))
+def freshB (s : Node) : Ev → Bool
+  | .timeout e => !s.overtaken e
+  | .vote e _ _ _ => !s.overtaken e
+  | .newView e _ => !s.overtaken e
   | _ => true
 
 theorem evOkB_sound {T : Nat → Nat} {s : Node} {ev : Ev} (h : evOkB T s ev = true) : EvOk T s ev := by
@@ -59,22 +66,23 @@ theorem evOkB_sound {T : Nat → Nat} {s : Node} {ev : Ev} (h : evOkB T s ev = t
     | some pc => obtain ⟨a, b⟩ := pc; simpa [evOkB, EvOk] using h
   | _ => trivial
 
-theorem promptB_sound {T : Nat → Nat} {s : Node} {ev : Ev} (h : promptB T s ev = true) : Prompt T s ev := by
+theorem freshB_sound {s : Node} {ev : Ev} (h : freshB s ev = true) : Benign s ev := by
   cases ev with
-  | timeout e => simpa [promptB, Prompt] using h
-  | vote e v n t => simpa [promptB, Prompt] using h
-  | newView e v => simpa [promptB, Prompt] using h
+  | timeout e => intro ho; simp [freshB, ho] at h
+  | vote e v n t => intro ho; simp [freshB, ho] at h
+  | newView e v => intro ho; simp [freshB, ho] at h
   | _ => trivial
 
-/-- States reachable from a fresh node by any event list whose answers agree with `T` and whose events
-satisfy `P` (`fun _ _ => True` for the code as it is, `Prompt T` for the `_partial` theorems). -/
-inductive Reach (T : Nat → Nat) (P : Node → Ev → Prop) : Node → Prop
+/-- States reachable from a fresh node by any event list whose answers agree with `T` and whose events satisfy `P`
+(`fun _ _ => True`: no assumption; `Benign`). `legacy = true`: the `start` rule of before fix a8b4c3e. -/
+inductive Reach (T : Nat → Nat) (legacy : Bool) (P : Node → Ev → Prop) : Node → Prop
   | init (static : Option (Nat × Nat)) (next : Nat) (h : ∀ fb c, static = some (fb, c) → fb = T 0) :
-      Reach T P (Node.init static next)
-  | step {s s' : Node} {ev : Ev} : Reach T P s → EvOk T s ev → P s ev → step s ev = some s' → Reach T P s'
+      Reach T legacy P (Node.init static next)
+  | step {s s' : Node} {ev : Ev} : Reach T legacy P s → EvOk T s ev → P s ev → stepG legacy s ev = some s' →
+      Reach T legacy P s'
 
-theorem Reach.weaken {T : Nat → Nat} {P : Node → Ev → Prop} {s : Node} (h : Reach T P s) :
-    Reach T (fun _ _ => True) s := by
+theorem Reach.weaken {T : Nat → Nat} {legacy : Bool} {P : Node → Ev → Prop} {s : Node} (h : Reach T legacy P s) :
+    Reach T legacy (fun _ _ => True) s := by
   induction h with
   | init st n h => exact .init st n h
   | step _ hok _ hs ih => exact .step ih hok trivial hs
@@ -209,13 +217,14 @@ theorem write_fields (s : Node) (e v : Nat) (p : Phase) (sg : Option Signed) :
     (write s e v p sg).persistedNext = s.persistedNext ∧ (write s e v p sg).first = s.first ∧
     (write s e v p sg).slot = some ⟨e, v, p⟩ ∧
     (write s e v p sg).inst = (fun x => if x = e then .running v p else s.inst x) ∧
-    (write s e v p sg).lastBackup = (fun x => if x = e then some ⟨e, v, p⟩ else s.lastBackup x) := by
+    (write s e v p sg).lastBackup = (fun x => if x = e then some ⟨e, v, p⟩ else s.lastBackup x) ∧
+    (write s e v p sg).overtaken = (fun x => if x < e then true else s.overtaken x) := by
   simp [write, setInst, backup]
 
 theorem InvA.write {T : Nat → Nat} {s : Node} (hI : InvA T s) {e cv : Nat} {pp : Phase}
     (hrun : s.inst e = .running cv pp) (v : Nat) (p : Phase) (sg : Option Signed) :
     InvA T (write s e v p sg) := by
-  obtain ⟨f1, f2, f3, f4, f5, f6, f7⟩ := write_fields s e v p sg
+  obtain ⟨f1, f2, f3, f4, f5, f6, f7, _⟩ := write_fields s e v p sg
   have hT := hI.runningT e cv pp hrun
   constructor
   · rw [f1]; exact hI.staticT
@@ -234,17 +243,17 @@ theorem InvA.write {T : Nat → Nat} {s : Node} (hI : InvA T s) {e cv : Nat} {pp
     · subst hxe; simp at hs; subst hs; exact ⟨rfl, hT⟩
     · simp [hxe] at hs; exact hI.bkT x st hs
 
-theorem InvA.step {T : Nat → Nat} {s s' : Node} {ev : Ev} (hI : InvA T s) (hok : EvOk T s ev)
-    (hs : step s ev = some s') : InvA T s' := by
+theorem InvA.step {T : Nat → Nat} {legacy : Bool} {s s' : Node} {ev : Ev} (hI : InvA T s) (hok : EvOk T s ev)
+    (hs : stepG legacy s ev = some s') : InvA T s' := by
   cases ev with
   | runnerInit last act com =>
-    simp only [Model.Epoch.step] at hs
+    simp only [stepG] at hs
     split at hs
     · cases hs
     · cases hs
       exact { hI with schedT := hI.schedT.insert _ _ _ hok }
   | poll pending =>
-    simp only [Model.Epoch.step] at hs
+    simp only [stepG] at hs
     split at hs
     · cases hs
     · split at hs
@@ -254,7 +263,7 @@ theorem InvA.step {T : Nat → Nat} {s s' : Node} {ev : Ev} (hI : InvA T s) (hok
         intro pact pcom hp; subst hp; exact hok
       · cases hs
   | spawn e =>
-    simp only [Model.Epoch.step] at hs
+    simp only [stepG] at hs
     split at hs
     · rename_i l habs hl
       cases hs
@@ -271,7 +280,7 @@ theorem InvA.step {T : Nat → Nat} {s s' : Node} {ev : Ev} (hI : InvA T s) (hok
         · simp [hxe] at hx; exact hI.runningT x v p hx
     · cases hs
   | start e =>
-    simp only [Model.Epoch.step] at hs
+    simp only [stepG] at hs
     split at hs
     · rename_i hw
       split at hs
@@ -293,13 +302,13 @@ theorem InvA.step {T : Nat → Nat} {s s' : Node} {ev : Ev} (hI : InvA T s) (hok
       · cases hs
     · cases hs
   | timeout e =>
-    simp only [Model.Epoch.step] at hs
+    simp only [stepG] at hs
     split at hs
     · rename_i v p hrun
       cases hs; exact hI.write hrun _ _ _
     · cases hs
   | vote e view number tag =>
-    simp only [Model.Epoch.step] at hs
+    simp only [stepG] at hs
     split at hs
     · rename_i cv p hrun
       split at hs
@@ -307,7 +316,7 @@ theorem InvA.step {T : Nat → Nat} {s s' : Node} {ev : Ev} (hI : InvA T s) (hok
       · cases hs
     · cases hs
   | newView e view =>
-    simp only [Model.Epoch.step] at hs
+    simp only [stepG] at hs
     split at hs
     · rename_i cv p hrun
       split at hs
@@ -315,10 +324,10 @@ theorem InvA.step {T : Nat → Nat} {s s' : Node} {ev : Ev} (hI : InvA T s) (hok
       · cases hs
     · cases hs
   | queue =>
-    simp only [Model.Epoch.step] at hs
+    simp only [stepG] at hs
     cases hs; exact { hI with }
   | persist =>
-    simp only [Model.Epoch.step] at hs
+    simp only [stepG] at hs
     split at hs
     · cases hs
       refine { hI with runningT := ?_, bkT := ?_ }
@@ -326,13 +335,13 @@ theorem InvA.step {T : Nat → Nat} {s s' : Node} {ev : Ev} (hI : InvA T s) (hok
       · intro x st hx; have := hI.bkT x st hx; simp only; exact ⟨this.1, by omega⟩
     · cases hs
   | syncPersist =>
-    simp only [Model.Epoch.step] at hs
+    simp only [stepG] at hs
     cases hs
     refine { hI with runningT := ?_, bkT := ?_ }
     · intro x v p hx; have := hI.runningT x v p hx; simp only; omega
     · intro x st hx; have := hI.bkT x st hx; simp only; exact ⟨this.1, by omega⟩
   | teardown e =>
-    simp only [Model.Epoch.step] at hs
+    simp only [stepG] at hs
     split at hs
     · cases hs
     · rename_i hne
@@ -355,7 +364,7 @@ theorem InvA.step {T : Nat → Nat} {s s' : Node} {ev : Ev} (hI : InvA T s) (hok
         · cases hs
       · cases hs
   | cancel e =>
-    simp only [Model.Epoch.step] at hs
+    simp only [stepG] at hs
     split at hs
     · cases hs
     · rename_i hne
@@ -372,134 +381,176 @@ theorem InvA.step {T : Nat → Nat} {s s' : Node} {ev : Ev} (hI : InvA T s) (hok
         · simp [hxe] at hx
         · simp [hxe] at hx; exact hI.runningT x v p hx
   | crash =>
-    simp only [Model.Epoch.step] at hs
+    simp only [stepG] at hs
     cases hs
     refine { hI with schedT := mgrNew_schedT hI.staticT, firstT := ?_, runningT := ?_ }
     · intro x hx; simp at hx
     · intro x v p hx; simp at hx
 
-theorem InvA.reach {T : Nat → Nat} {P : Node → Ev → Prop} {s : Node} (h : Reach T P s) : InvA T s := by
+theorem InvA.reach {T : Nat → Nat} {legacy : Bool} {P : Node → Ev → Prop} {s : Node} (h : Reach T legacy P s) :
+    InvA T s := by
   induction h with
   | init st n h => exact InvA.init st n h
   | step _ hok _ hs ih => exact ih.step hok hs
 
-/-! ### invariants that need prompt teardown -/
+/-! ### invariants of the repaired code under `Benign` -/
 
 /-- a vote signed at view `b` is recorded by a durable state `(v, p)`: the state is in a later view, or in the same
 view and no longer in `Prepare` -/
 def Covered (b v : Nat) (p : Phase) : Prop := b < v ∨ (b = v ∧ p ≠ .prepare)
 
-/-- `a` may be signed after `b`: epochs do not go back; within an epoch views do not go back, and a commit vote is
-for a view strictly above everything signed before -/
+/-- `a` may be signed after `b`: within an epoch views do not go back, and a commit vote is for a view strictly
+above everything signed in the epoch before -/
 def Later (a b : Signed) : Prop :=
-  b.epoch ≤ a.epoch ∧ (b.epoch = a.epoch → b.view ≤ a.view ∧ (a.kind = .commit → b.view < a.view))
+  b.epoch = a.epoch → b.view ≤ a.view ∧ (a.kind = .commit → b.view < a.view)
 
 structure InvB (T : Nat → Nat) (s : Node) : Prop where
   a : InvA T s
-  keep : ∀ e st, s.lastBackup e = some st → s.persistedNext < T (e + 1) → s.slot = some st
-  live : ∀ e v p, s.inst e = .running v p → s.persistedNext < T (e + 1) →
-    (∀ st, s.lastBackup e = some st → st.view = v ∧ st.phase = p) ∧ (s.lastBackup e = none → v = 0 ∧ p = .prepare)
+  /-- a running instance below the slot's epoch has been overtaken during its life -/
+  ov : ∀ e v p, s.inst e = .running v p → ∀ st, s.slot = some st → e < st.epoch → s.overtaken e = true
+  /-- the slot holds the state of the highest epoch that made more than its bootstrap backup -/
+  top : ∀ e st, s.lastBackup e = some st → (∃ st', s.slot = some st' ∧ e ≤ st'.epoch) ∨ Boot st
+  /-- a running instance is where its epoch's last backup is, or at the default state if that backup is the bootstrap one -/
+  live : ∀ e v p, s.inst e = .running v p →
+    (∀ st, s.lastBackup e = some st → (st.view = v ∧ st.phase = p) ∨ (Boot st ∧ v = 0 ∧ p = .prepare)) ∧
+    (s.lastBackup e = none → v = 0 ∧ p = .prepare)
   cover : ∀ sg ∈ s.signed, ∃ st, s.lastBackup sg.epoch = some st ∧ Covered sg.view st.view st.phase
   order : s.signed.Pairwise Later
 
 theorem InvB.init {T : Nat → Nat} (static : Option (Nat × Nat)) (next : Nat)
     (h : ∀ fb c, static = some (fb, c) → fb = T 0) : InvB T (Node.init static next) where
   a := InvA.init static next h
-  keep := by intro e st hs; simp [Node.init] at hs
+  ov := by intro e v p he; simp [Node.init] at he
+  top := by intro e st hs; simp [Node.init] at hs
   live := by intro e v p he; simp [Node.init] at he
   cover := by intro sg hs; simp [Node.init] at hs
   order := by simp [Node.init]
 
+theorem restore_running {slot : Option RState} {e v : Nat} {p : Phase} (h : restore slot e = .running v p) :
+    (∃ b, slot = some b ∧ b.epoch = e ∧ b.view = v ∧ b.phase = p) ∨
+    ((∀ b, slot = some b → b.epoch < e) ∧ v = 0 ∧ p = .prepare) := by
+  unfold restore at h
+  cases hs : slot with
+  | none =>
+    simp only [stored, hs] at h
+    right
+    refine ⟨(by intro b hb; cases hb), ?_⟩
+    split at h
+    · simp [RState.default] at h; exact ⟨h.1.symm, h.2.symm⟩
+    · split at h
+      · cases h
+      · simp [RState.default] at h; exact ⟨h.1.symm, h.2.symm⟩
+  | some b =>
+    simp only [stored, hs] at h
+    split at h
+    · rename_i he
+      left
+      simp at h
+      exact ⟨b, rfl, he, h.1, h.2⟩
+    · split at h
+      · cases h
+      · rename_i h1 h2
+        right
+        simp [RState.default] at h
+        refine ⟨?_, h.1.symm, h.2.symm⟩
+        intro b' hb'; cases hb'; omega
+
 /-- a step that is not a durable write: the durable part only grows in `persistedNext`; an instance that is running
-afterwards was running before, or has just been started from the slot -/
+afterwards was running before (with the same `overtaken` flag), or has just been started from the slot -/
 structure Quiet (s s' : Node) : Prop where
   slot : s'.slot = s.slot
   bk : s'.lastBackup = s.lastBackup
   signed : s'.signed = s.signed
-  pers : s.persistedNext ≤ s'.persistedNext
   inst : ∀ e v p, s'.inst e = .running v p →
-    s.inst e = .running v p ∨ restore s.slot e = .running v p
+    (s.inst e = .running v p ∧ s'.overtaken e = s.overtaken e) ∨ restore s.slot e = .running v p
 
 theorem InvB.quiet {T : Nat → Nat} {s s' : Node} (hI : InvB T s) (ha : InvA T s') (hq : Quiet s s') : InvB T s' := by
-  refine ⟨ha, ?_, ?_, ?_, ?_⟩
-  · intro e st hb hp
+  refine ⟨ha, ?_, ?_, ?_, ?_, ?_⟩
+  · intro e v p hr st hs hlt
+    rw [hq.slot] at hs
+    rcases hq.inst e v p hr with ⟨h, ho⟩ | h
+    · rw [ho]; exact hI.ov e v p h st hs hlt
+    · exfalso
+      rcases restore_running h with ⟨b, hb, hbe, _, _⟩ | ⟨hb, _, _⟩
+      · rw [hs] at hb; cases hb; omega
+      · have := hb st hs; omega
+  · intro e st hb
     rw [hq.bk] at hb; rw [hq.slot]
-    exact hI.keep e st hb (by have := hq.pers; omega)
-  · intro e v p hr hp
+    exact hI.top e st hb
+  · intro e v p hr
     rw [hq.bk]
-    have hp' : s.persistedNext < T (e + 1) := by have := hq.pers; omega
-    rcases hq.inst e v p hr with h | h
-    · exact hI.live e v p h hp'
-    · unfold restore at h
-      constructor
-      · intro st hb
-        have hslot := hI.keep e st hb hp'
-        have hep := (hI.a.bkT e st hb).1
-        simp [stored, hslot, hep] at h
-        exact h
-      · intro hb
-        cases hsl : s.slot with
-        | none =>
-          simp [stored, hsl, RState.default] at h
-          exact ⟨h.1.symm, h.2.symm⟩
-        | some st' =>
-          have := hI.a.slotBk st' hsl
-          simp only [stored, hsl] at h
-          by_cases hep : st'.epoch = e
-          · rw [hep, hb] at this; cases this
-          · simp [hep, RState.default] at h
-            exact ⟨h.1.symm, h.2.symm⟩
+    rcases hq.inst e v p hr with ⟨h, _⟩ | h
+    · exact hI.live e v p h
+    · rcases restore_running h with ⟨b, hb, hbe, hv, hp⟩ | ⟨hb, hv, hp⟩
+      · have hbk := hI.a.slotBk b hb
+        rw [hbe] at hbk
+        constructor
+        · intro st hst; rw [hbk] at hst; cases hst; exact Or.inl ⟨hv, hp⟩
+        · intro hn; rw [hbk] at hn; cases hn
+      · constructor
+        · intro st hst
+          rcases hI.top e st hst with ⟨st', hs', hle⟩ | hboot
+          · have := hb st' hs'; omega
+          · exact Or.inr ⟨hboot, hv, hp⟩
+        · intro _; exact ⟨hv, hp⟩
   · intro sg hs
     rw [hq.signed] at hs; rw [hq.bk]
     exact hI.cover sg hs
   · rw [hq.signed]; exact hI.order
 
-/-- what the three writing handlers have in common -/
+/-- what the three writing handlers have in common, relative to the state `(cv, pp)` that covers what was signed -/
 structure WriteOk (e cv : Nat) (pp : Phase) (v : Nat) (p : Phase) (sg : Option Signed) : Prop where
   adv : ∀ b, Covered b cv pp → Covered b v p
   sig : ∀ x, sg = some x → x.epoch = e ∧ x.view = v ∧ p ≠ .prepare ∧
     ∀ b, Covered b cv pp → b ≤ v ∧ (x.kind = .commit → b < v)
 
+/-- the state that covers the signatures of the epoch, given the state `(cv, pp)` the instance is in: the same, or
+the bootstrap state if the instance restarted from the default state -/
+def Eff (cv : Nat) (pp : Phase) (ecv : Nat) (epp : Phase) : Prop :=
+  (ecv = cv ∧ epp = pp) ∨ (ecv = 0 ∧ epp = .timeout ∧ cv = 0 ∧ pp = .prepare)
+
 theorem write_signed (s : Node) (e v : Nat) (p : Phase) (sg : Option Signed) :
     (write s e v p sg).signed = (match sg with | some x => x :: s.signed | none => s.signed) := by
   cases sg <;> rfl
 
-theorem InvB.write {T : Nat → Nat} (hm : Mono T) {s : Node} (hI : InvB T s) {e cv : Nat} {pp : Phase}
-    (hrun : s.inst e = .running cv pp) (hP : s.persistedNext < T (e + 1))
-    {v : Nat} {p : Phase} {sg : Option Signed} (hw : WriteOk e cv pp v p sg) :
+theorem InvB.write {T : Nat → Nat} {s : Node} (hI : InvB T s) {e cv : Nat} {pp : Phase}
+    (hrun : s.inst e = .running cv pp) (hP : BenignAt s e)
+    {v : Nat} {p : Phase} {sg : Option Signed} (hw : ∀ ecv epp, Eff cv pp ecv epp → WriteOk e ecv epp v p sg) :
     InvB T (write s e v p sg) := by
-  obtain ⟨f1, f2, f3, f4, f5, f6, f7⟩ := write_fields s e v p sg
-  have hlive := hI.live e cv pp hrun hP
-  -- every earlier signature of epoch `e` is covered by the state the instance is in
-  have hold : ∀ b ∈ s.signed, b.epoch = e → Covered b.view cv pp := by
+  obtain ⟨f1, f2, f3, f4, f5, f6, f7, f8⟩ := write_fields s e v p sg
+  have hlive := hI.live e cv pp hrun
+  -- every earlier signature of epoch `e` is covered by the new state, and ordered before the new signature
+  have hold : ∀ b ∈ s.signed, b.epoch = e → ∃ ecv epp, Eff cv pp ecv epp ∧ Covered b.view ecv epp := by
     intro b hb hbe
     obtain ⟨st, hst, hc⟩ := hI.cover b hb
     rw [hbe] at hst
-    obtain ⟨h1, h2⟩ := hlive.1 st hst
-    rw [h1, h2] at hc; exact hc
-  refine ⟨hI.a.write hrun v p sg, ?_, ?_, ?_, ?_⟩
-  · intro x st hb hp
-    rw [f7] at hb; rw [f3] at hp; rw [f5]
+    rcases hlive.1 st hst with ⟨h1, h2⟩ | ⟨⟨h1, h2⟩, h3, h4⟩
+    · exact ⟨st.view, st.phase, Or.inl ⟨h1, h2⟩, hc⟩
+    · exact ⟨st.view, st.phase, Or.inr ⟨h1, h2, h3, h4⟩, hc⟩
+  refine ⟨hI.a.write hrun v p sg, ?_, ?_, ?_, ?_, ?_⟩
+  · intro x v' p' hr st hs hlt
+    rw [f5] at hs; cases hs
+    rw [f8]
+    simp only at hlt
+    simp [hlt]
+  · intro x st hb
+    rw [f7] at hb; rw [f5]
     by_cases hxe : x = e
-    · simp [hxe] at hb; rw [hb]
+    · left; exact ⟨_, rfl, by simp [hxe]⟩
     · simp [hxe] at hb
-      exfalso
-      have hbx := (hI.a.bkT x st hb).2
-      have hre := hI.a.runningT e cv pp hrun
-      rcases Nat.lt_or_gt_of_ne hxe with hlt | hgt
-      · -- x < e: e is running, so the first block of e (≥ T (x+1)) is persisted
-        have h1 : T (x + 1) ≤ T e := hm.le (by omega)
-        have h2 : T x < T (x + 1) := hm x
-        omega
-      · -- e < x: prompt teardown
-        have h1 : T (e + 1) ≤ T x := hm.le (by omega)
-        have h2 : T e < T (e + 1) := hm e
-        omega
-  · intro x v' p' hr hp
-    rw [f6] at hr; rw [f7]; rw [f3] at hp
+      by_cases hlt : x < e
+      · left; exact ⟨_, rfl, by simp; omega⟩
+      · have hgt : e < x := by omega
+        right
+        rcases hI.top x st hb with ⟨st', hs', hle⟩ | hboot
+        · have hov := hI.ov e cv pp hrun st' hs' (by omega)
+          exact hP hov x st hgt hb
+        · exact hboot
+  · intro x v' p' hr
+    rw [f6] at hr; rw [f7]
     by_cases hxe : x = e
-    · simp [hxe] at hr ⊢; exact ⟨hr.1, hr.2⟩
-    · simp [hxe] at hr ⊢; exact hI.live x v' p' hr hp
+    · simp [hxe] at hr ⊢; exact Or.inl ⟨hr.1, hr.2⟩
+    · simp [hxe] at hr ⊢; exact hI.live x v' p' hr
   · intro b hb
     rw [write_signed] at hb; rw [f7]
     have old : ∀ b ∈ s.signed, ∃ st, (if b.epoch = e then some (⟨e, v, p⟩ : RState) else s.lastBackup b.epoch) = some st ∧
@@ -507,13 +558,14 @@ theorem InvB.write {T : Nat → Nat} (hm : Mono T) {s : Node} (hI : InvB T s) {e
       intro b hb
       by_cases hbe : b.epoch = e
       · simp only [hbe, if_true]
-        exact ⟨_, rfl, hw.adv _ (hold b hb hbe)⟩
+        obtain ⟨ecv, epp, heff, hc⟩ := hold b hb hbe
+        exact ⟨_, rfl, (hw ecv epp heff).adv _ hc⟩
       · simp only [hbe, if_false]; exact hI.cover b hb
     cases sg with
     | none => exact old b hb
     | some x =>
       rcases List.mem_cons.mp hb with hb | hb
-      · obtain ⟨h1, h2, h3, _⟩ := hw.sig x rfl
+      · obtain ⟨h1, h2, h3, _⟩ := (hw cv pp (Or.inl ⟨rfl, rfl⟩)).sig x rfl
         subst hb
         simp only [h1, if_true]
         exact ⟨_, rfl, Or.inr ⟨h2, h3⟩⟩
@@ -522,31 +574,23 @@ theorem InvB.write {T : Nat → Nat} (hm : Mono T) {s : Node} (hI : InvB T s) {e
     cases sg with
     | none => exact hI.order
     | some x =>
-      obtain ⟨h1, h2, _, h4⟩ := hw.sig x rfl
+      obtain ⟨h1, h2, _, _⟩ := (hw cv pp (Or.inl ⟨rfl, rfl⟩)).sig x rfl
       refine List.pairwise_cons.mpr ⟨?_, hI.order⟩
-      intro b hb
-      obtain ⟨st, hst, _⟩ := hI.cover b hb
-      have hbx := (hI.a.bkT b.epoch st hst).2
-      have hle : b.epoch ≤ e := by
-        by_cases hc : b.epoch ≤ e
-        · exact hc
-        · exfalso
-          have h5 : T (e + 1) ≤ T b.epoch := hm.le (by omega)
-          have h6 : T e < T (e + 1) := hm e
-          omega
-      refine ⟨by rw [h1]; exact hle, ?_⟩
-      intro hbe
+      intro b hb hbe
       rw [h1] at hbe
-      have := h4 b.view (hold b hb hbe)
+      obtain ⟨ecv, epp, heff, hc⟩ := hold b hb hbe
+      have := ((hw ecv epp heff).sig x rfl).2.2.2 b.view hc
       rw [h2]; exact this
 
 theorem proposalFresh_iff (cv : Nat) (p : Phase) (view : Nat) :
-    proposalFresh cv p view = true ↔ ¬ view < cv ∧ (view = cv → p = .prepare) := by
+    proposalFresh cv p view = true ↔ 1 ≤ view ∧ ¬ view < cv ∧ (view = cv → p = .prepare) := by
   unfold proposalFresh
   cases p <;> simp <;> omega
 
-theorem writeOk_timeout (e cv : Nat) (pp : Phase) :
-    WriteOk e cv pp cv .timeout (some { epoch := e, view := cv, kind := .timeout, tag := 0 }) := by
+theorem writeOk_timeout (e cv : Nat) (pp : Phase) (ecv : Nat) (epp : Phase) (h : Eff cv pp ecv epp) :
+    WriteOk e ecv epp cv .timeout (some { epoch := e, view := cv, kind := .timeout, tag := 0 }) := by
+  have hcv : ecv = cv := by rcases h with h | h <;> omega
+  subst hcv
   constructor
   · intro b hb
     rcases hb with hb | hb
@@ -558,15 +602,19 @@ theorem writeOk_timeout (e cv : Nat) (pp : Phase) :
     refine ⟨?_, by simp⟩
     rcases hb with hb | hb <;> omega
 
-theorem writeOk_vote (e cv : Nat) (pp : Phase) (view tag : Nat) (hf : proposalFresh cv pp view = true) :
-    WriteOk e cv pp view .commit (some { epoch := e, view := view, kind := .commit, tag := tag }) := by
+theorem writeOk_vote (e cv : Nat) (pp : Phase) (view tag : Nat) (hf : proposalFresh cv pp view = true)
+    (ecv : Nat) (epp : Phase) (h : Eff cv pp ecv epp) :
+    WriteOk e ecv epp view .commit (some { epoch := e, view := view, kind := .commit, tag := tag }) := by
   rw [proposalFresh_iff] at hf
-  have key : ∀ b, Covered b cv pp → b < view := by
+  have key : ∀ b, Covered b ecv epp → b < view := by
     intro b hb
-    rcases hb with hb | ⟨hb1, hb2⟩
-    · omega
-    · have : view ≠ cv := fun h => hb2 (hf.2 h)
-      omega
+    rcases h with ⟨h1, h2⟩ | ⟨h1, _, h3, _⟩
+    · subst h1; subst h2
+      rcases hb with hb | ⟨hb1, hb2⟩
+      · omega
+      · have : view ≠ ecv := fun h => hb2 (hf.2.2 h)
+        omega
+    · rcases hb with hb | ⟨hb1, _⟩ <;> omega
   constructor
   · intro b hb; exact Or.inl (key b hb)
   · intro x hx; cases hx
@@ -575,8 +623,11 @@ theorem writeOk_vote (e cv : Nat) (pp : Phase) (view tag : Nat) (hf : proposalFr
     have := key b hb
     exact ⟨by omega, fun _ => this⟩
 
-theorem writeOk_newView (e cv : Nat) (pp : Phase) (view : Nat) (h : cv < view) :
-    WriteOk e cv pp view .prepare none := by
+theorem writeOk_newView (e cv : Nat) (pp : Phase) (view : Nat) (hlt : cv < view)
+    (ecv : Nat) (epp : Phase) (h : Eff cv pp ecv epp) :
+    WriteOk e ecv epp view .prepare none := by
+  have hcv : ecv = cv := by rcases h with h | h <;> omega
+  subst hcv
   constructor
   · intro b hb
     rcases hb with hb | hb
@@ -584,126 +635,167 @@ theorem writeOk_newView (e cv : Nat) (pp : Phase) (view : Nat) (h : cv < view) :
     · exact Or.inl (by omega)
   · intro x hx; cases hx
 
-theorem InvB.step {T : Nat → Nat} (hm : Mono T) {s s' : Node} {ev : Ev} (hI : InvB T s) (hok : EvOk T s ev)
-    (hp : Prompt T s ev) (hs : step s ev = some s') : InvB T s' := by
-  have ha := hI.a.step hok hs
+theorem InvB.step {T : Nat → Nat} {s s' : Node} {ev : Ev} (hI : InvB T s) (hok : EvOk T s ev)
+    (hp : Benign s ev) (hs : step s ev = some s') : InvB T s' := by
+  have ha := hI.a.step (legacy := false) hok hs
   cases ev with
   | runnerInit last act com =>
-    simp only [Model.Epoch.step] at hs
+    simp only [Model.Epoch.step, stepG] at hs
     split at hs
     · cases hs
     · cases hs
-      exact hI.quiet ha ⟨rfl, rfl, rfl, Nat.le_refl _, fun e v p h => Or.inl h⟩
+      exact hI.quiet ha ⟨rfl, rfl, rfl, fun e v p h => Or.inl ⟨h, rfl⟩⟩
   | poll pending =>
-    simp only [Model.Epoch.step] at hs
+    simp only [Model.Epoch.step, stepG] at hs
     split at hs
     · cases hs
     · split at hs
       · cases hs
-        exact hI.quiet ha ⟨rfl, rfl, rfl, Nat.le_refl _, fun e v p h => Or.inl h⟩
+        exact hI.quiet ha ⟨rfl, rfl, rfl, fun e v p h => Or.inl ⟨h, rfl⟩⟩
       · cases hs
   | spawn e =>
-    simp only [Model.Epoch.step] at hs
+    simp only [Model.Epoch.step, stepG] at hs
     split at hs
     · cases hs
-      refine hI.quiet ha ⟨rfl, rfl, rfl, Nat.le_refl _, ?_⟩
+      refine hI.quiet ha ⟨rfl, rfl, rfl, ?_⟩
       intro x v p h
       simp only [setInst] at h
       by_cases hxe : x = e
       · simp [hxe] at h
-      · simp [hxe] at h; exact Or.inl h
+      · simp [hxe] at h; exact Or.inl ⟨h, by simp [hxe]⟩
     · cases hs
   | start e =>
-    simp only [Model.Epoch.step] at hs
+    simp only [Model.Epoch.step, stepG] at hs
     split at hs
     · split at hs
       · cases hs
-        refine hI.quiet ha ⟨rfl, rfl, rfl, Nat.le_refl _, ?_⟩
+        refine hI.quiet ha ⟨rfl, rfl, rfl, ?_⟩
         intro x v p h
         simp only [setInst] at h
         by_cases hxe : x = e
         · subst hxe; simp at h; exact Or.inr h
-        · simp [hxe] at h; exact Or.inl h
+        · simp [hxe] at h; exact Or.inl ⟨h, rfl⟩
       · cases hs
     · cases hs
   | timeout e =>
-    simp only [Model.Epoch.step] at hs
+    simp only [Model.Epoch.step, stepG] at hs
     split at hs
     · rename_i v p hrun
-      cases hs; exact hI.write hm hrun hp (writeOk_timeout e v p)
+      cases hs; exact hI.write hrun hp (writeOk_timeout e v p)
     · cases hs
   | vote e view number tag =>
-    simp only [Model.Epoch.step] at hs
+    simp only [Model.Epoch.step, stepG] at hs
     split at hs
     · rename_i cv p hrun
       split at hs
       · rename_i hc
         cases hs
         simp only [Bool.and_eq_true] at hc
-        exact hI.write hm hrun hp (writeOk_vote e cv p view tag hc.1)
+        exact hI.write hrun hp (writeOk_vote e cv p view tag hc.1)
       · cases hs
     · cases hs
   | newView e view =>
-    simp only [Model.Epoch.step] at hs
+    simp only [Model.Epoch.step, stepG] at hs
     split at hs
     · rename_i cv p hrun
       split at hs
       · rename_i hc
-        cases hs; exact hI.write hm hrun hp (writeOk_newView e cv p view hc)
+        cases hs; exact hI.write hrun hp (writeOk_newView e cv p view hc)
       · cases hs
     · cases hs
   | queue =>
-    simp only [Model.Epoch.step] at hs
+    simp only [Model.Epoch.step, stepG] at hs
     cases hs
-    exact hI.quiet ha ⟨rfl, rfl, rfl, Nat.le_refl _, fun e v p h => Or.inl h⟩
+    exact hI.quiet ha ⟨rfl, rfl, rfl, fun e v p h => Or.inl ⟨h, rfl⟩⟩
   | persist =>
-    simp only [Model.Epoch.step] at hs
+    simp only [Model.Epoch.step, stepG] at hs
     split at hs
     · cases hs
-      exact hI.quiet ha ⟨rfl, rfl, rfl, Nat.le_succ _, fun e v p h => Or.inl h⟩
+      exact hI.quiet ha ⟨rfl, rfl, rfl, fun e v p h => Or.inl ⟨h, rfl⟩⟩
     · cases hs
   | syncPersist =>
-    simp only [Model.Epoch.step] at hs
+    simp only [Model.Epoch.step, stepG] at hs
     cases hs
-    exact hI.quiet ha ⟨rfl, rfl, rfl, Nat.le_succ _, fun e v p h => Or.inl h⟩
+    exact hI.quiet ha ⟨rfl, rfl, rfl, fun e v p h => Or.inl ⟨h, rfl⟩⟩
   | teardown e =>
-    simp only [Model.Epoch.step] at hs
+    simp only [Model.Epoch.step, stepG] at hs
     split at hs
     · cases hs
     · split at hs
       · split at hs
         · split at hs
           · cases hs
-            refine hI.quiet ha ⟨rfl, rfl, rfl, Nat.le_refl _, ?_⟩
+            refine hI.quiet ha ⟨rfl, rfl, rfl, ?_⟩
             intro x v p h
             simp only [setInst] at h
             by_cases hxe : x = e
             · simp [hxe] at h
-            · simp [hxe] at h; exact Or.inl h
+            · simp [hxe] at h; exact Or.inl ⟨h, rfl⟩
           · cases hs
         · cases hs
       · cases hs
   | cancel e =>
-    simp only [Model.Epoch.step] at hs
+    simp only [Model.Epoch.step, stepG] at hs
     split at hs
     · cases hs
     · cases hs
-      refine hI.quiet ha ⟨rfl, rfl, rfl, Nat.le_refl _, ?_⟩
+      refine hI.quiet ha ⟨rfl, rfl, rfl, ?_⟩
       intro x v p h
       simp only [setInst] at h
       by_cases hxe : x = e
       · simp [hxe] at h
-      · simp [hxe] at h; exact Or.inl h
+      · simp [hxe] at h; exact Or.inl ⟨h, rfl⟩
   | crash =>
-    simp only [Model.Epoch.step] at hs
+    simp only [Model.Epoch.step, stepG] at hs
     cases hs
-    refine hI.quiet ha ⟨rfl, rfl, rfl, Nat.le_refl _, ?_⟩
+    refine hI.quiet ha ⟨rfl, rfl, rfl, ?_⟩
     intro x v p h
     simp at h
 
-theorem InvB.reach {T : Nat → Nat} (hm : Mono T) {s : Node} (h : Reach T (Prompt T) s) : InvB T s := by
+theorem InvB.reach {T : Nat → Nat} {s : Node} (h : Reach T false Benign s) : InvB T s := by
   induction h with
   | init st n h => exact InvB.init st n h
-  | step _ hok hp hs ih => exact ih.step hm hok hp hs
+  | step _ hok hp hs ih => exact ih.step hok hp hs
+
+/-! ### checked example runs -/
+
+/-- Runs the events with the `start` rule selected by `legacy`, checking `EvOk` and, if `fresh`, that no writer has
+been overtaken (which implies `Benign`) on the way. -/
+def runChecked (T : Nat → Nat) (legacy fresh : Bool) (s : Node) : List Ev → Option Node
+  | [] => some s
+  | ev :: evs =>
+    if evOkB T s ev && (!fresh || freshB s ev) then
+      match stepG legacy s ev with
+      | some s' => runChecked T legacy fresh s' evs
+      | none => none
+    else none
+
+theorem reach_of_runChecked {T : Nat → Nat} {legacy fresh : Bool} {P : Node → Ev → Prop}
+    (hP : ∀ s ev, fresh = true → Benign s ev → P s ev) (hP' : fresh = false → ∀ s ev, P s ev)
+    {s s' : Node} {evs : List Ev} (hr : Reach T legacy P s) (h : runChecked T legacy fresh s evs = some s') :
+    Reach T legacy P s' := by
+  induction evs generalizing s with
+  | nil => simp only [runChecked, Option.some.injEq] at h; subst h; exact hr
+  | cons ev evs ih =>
+    simp only [runChecked] at h
+    split at h
+    · rename_i hc
+      simp only [Bool.and_eq_true, Bool.or_eq_true, Bool.not_eq_true'] at hc
+      split at h
+      · rename_i s1 hs1
+        refine ih (Reach.step hr (evOkB_sound hc.1) ?_ hs1) h
+        cases hpr : fresh with
+        | false => exact hP' hpr _ _
+        | true =>
+          rcases hc.2 with h2 | h2
+          · rw [hpr] at h2; cases h2
+          · exact hP _ _ hpr (freshB_sound h2)
+      · cases h
+    · cases h
+
+/-- epoch length 3: epoch `e` = blocks `3e .. 3e+2` -/
+def T3 : Nat → Nat := fun e => 3 * e
+
+theorem T3_mono : Mono T3 := by intro e; simp [T3]
 
 end EraVerif.Proofs.Epoch
